@@ -193,11 +193,22 @@ def prog_line(m, tup, kw):
     return m + (' ' + ', '.join(ops) if ops else '')
 
 
-def judge_program(asm, acc, m, tup, kw):
+def judge_program(asm, acc, m, tup, kw, alias=False):
     line = prog_line(m, tup, kw)
+    pre = ''
+    if alias:
+        # legal register numbers / shift amounts named through constants (`Z = zero`, `SH = 0`): still the same operands
+        ops = [str(a) for a in tup]
+        for k, (kind, a) in enumerate(zip(operands.FORMATS[m], tup)):
+            if (is_reg_kind(kind) or kind in ('shamt', 'uimm5')) and isinstance(a, int) and 0 <= a <= 31:
+                pre += 'NM%d = %s\n' % (k, ['x%d' % a, operands.ABI[a], str(a), '%d - %d' % (a + 3, 3)][(a + k) % 4] if is_reg_kind(kind) else str(a))
+                ops[k] = 'NM%d' % k
+        if kw:
+            ops += [str(kw['aq']), str(kw['rl'])]
+        line = m + (' ' + ', '.join(ops) if ops else '')
     acc['n'] += 1
     status, exp = operands.expected(m, tup, **(kw or {}))
-    o = monitors.observe(asm, line, tap=False)
+    o = monitors.observe(asm, pre + line, tap=False)
     acc['ntkeys'].add(core.ckey('prog', line)) if status != operands.UNSPEC else None
     acc['ctr']['prog_' + status] += 1
     case = {'kind': 'prog', 'm': m, 'args': list(tup), 'kw': kw or {}}
@@ -240,7 +251,7 @@ def prog_shard(asm, acc, sh, deadline):
         if m in operands.ATOMICS:
             kw = {'aq': rng.choice([0, 1, 0, 1, 2, -1]), 'rl': rng.choice([0, 1])}
         core.see(acc, 'mnemonics_prog', m)
-        judge_program(asm, acc, m, tup, kw)
+        judge_program(asm, acc, m, tup, kw, alias=(k % 4 == 3 and all(not isinstance(a, str) for a in tup)))
         if k < 2:
             core.add_sample(acc, {'program': prog_line(m, tup, kw), 'model_says': operands.expected(m, tup, **(kw or {}))[0]})
         if time.time() > deadline:
